@@ -260,7 +260,13 @@ func GenRuleSet(t *rapid.T, o RuleOpts) *Generated {
 					if pat.Kind == "group" && !pat.Cap && pat.Kids[0].Kind == "alt" && rapid.Bool().Draw(t, "topalt") {
 						pat = pat.Kids[0] // top-level alternation: `a|b` (the rule still has to match as a whole at the offset)
 					}
-					if r.Action == "push" && rapid.Bool().Draw(t, "capwhole") {
+					if r.Action == "push" && !o.NoBackrefs && rapid.IntRange(0, 5).Draw(t, "optgroupfirst") == 0 {
+						// an opener whose first group is optional and whose second is not: (a)?(b) -- a closer written \2
+						// means the second group whether or not the first took part
+						g1 := &Pat{Kind: "group", Cap: true, Kids: []*Pat{genAtom(t, o.Pat)}}
+						g2 := &Pat{Kind: "group", Cap: true, Kids: []*Pat{pat}}
+						pat = &Pat{Kind: "cat", Kids: []*Pat{{Kind: "rep", Min: 0, Max: 1, Kids: []*Pat{g1}}, g2}}
+					} else if r.Action == "push" && rapid.Bool().Draw(t, "capwhole") {
 						// the whole match is also group 1: closers written as \1 then repeat the opener
 						pat = &Pat{Kind: "group", Cap: true, Kids: []*Pat{pat}}
 					}
